@@ -113,16 +113,34 @@ Theorem C13_propagation_computes_minimum :
 Proof. exact star_rounds_lower_star. Qed.
 Print Assumptions C13_propagation_computes_minimum.
 
-(* ---- lower star on the cubical complex itself: see C13_Final.v *)
-Theorem C13_lower_star_min : lower_star_min_statement.
+(* ---- lower star on the cubical complex itself (vshape_* = the cell grid of a vertex grid; monotone = faces never larger) *)
+(* built from top-cell values: the construction succeeds and every cell's value is the minimum (infinities included)
+   over the top cells containing it (s_star), read at their rank in the input vector *)
+Theorem C13_lower_star_min :
+  forall cls dims vals, wf_shape dims -> Z.of_nat (length vals) = prod_sizes (map fst dims) ->
+  exists data, a_build cls dims true vals = Some (dims, data) /\ length data = Z.to_nat (a_size cls dims) /\
+    forall c, s_valid (hshape cls dims) c ->
+      getd data (s_index (hshape cls dims) c) = s_value_top (hshape cls dims) vals c.
 Proof. exact lower_star_min. Qed.
 Print Assumptions C13_lower_star_min.
 
-Theorem C13_upper_star_max_periodic : upper_star_max_periodic_statement.
+(* built from vertex values, periodic class (work-list propagation through the coboundary): maximum over the vertices *)
+Theorem C13_upper_star_max_periodic :
+  forall dims vals, wf_shape (vshape_per dims) ->
+  Z.of_nat (length vals) = prod_sizes (map nvert (hshape true (vshape_per dims))) ->
+  exists data, a_build true dims false vals = Some (vshape_per dims, data) /\
+    forall c, s_valid (hshape true (vshape_per dims)) c ->
+      getd data (s_index (hshape true (vshape_per dims)) c) = s_value_vert (hshape true (vshape_per dims)) vals c.
 Proof. exact upper_star_max_periodic. Qed.
 Print Assumptions C13_upper_star_max_periodic.
 
-Theorem C13_upper_star_max_plain : upper_star_max_plain_statement.
+(* built from vertex values, plain class (propagate_from_vertices_rec, direction by direction) *)
+Theorem C13_upper_star_max_plain :
+  forall dims vals, wf_shape (vshape_plain dims) ->
+  Z.of_nat (length vals) = prod_sizes (map nvert (hshape false (vshape_plain dims))) ->
+  exists data, a_build false dims false vals = Some (vshape_plain dims, data) /\
+    forall c, s_valid (hshape false (vshape_plain dims)) c ->
+      getd data (s_index (hshape false (vshape_plain dims)) c) = s_value_vert (hshape false (vshape_plain dims)) vals c.
 Proof. exact upper_star_max_plain. Qed.
 Print Assumptions C13_upper_star_max_plain.
 
@@ -154,7 +172,9 @@ Theorem C13_filtration_nondecreasing : forall cls sh data l1 c1 l2 c2 l3,
 Proof. exact a_filtration_nondecreasing. Qed.
 Print Assumptions C13_filtration_nondecreasing.
 
-Theorem C13_filtration_faces_first : filtration_faces_first_statement.
+Theorem C13_filtration_faces_first :
+  forall cls sh data i f, wf_shape sh -> monotone cls sh data -> 0 <= i < a_size cls sh -> In f (a_bd cls sh i) ->
+  exists l1 l2 l3, a_filtration cls sh data = l1 ++ f :: l2 ++ i :: l3.
 Proof. exact filtration_faces_first. Qed.
 Print Assumptions C13_filtration_faces_first.
 
